@@ -144,6 +144,7 @@ func newIncarnation(st *qstore.Store, consumers int, auto bool, capacity int64) 
 
 // abandon releases everything held by a (dead or finished) incarnation and reclaims its goroutines.
 func (in *incarnation) abandon() {
+	in.st.Resume()
 	in.mu.Lock()
 	for _, e := range in.all {
 		select {
@@ -301,6 +302,54 @@ func runScript(known map[string][]byte, image map[string][]byte, recovered int, 
 			}
 			waitDelete()
 			r.trace = append(r.trace, s.Kind+"("+e.id+")")
+		case "OKP":
+			// complete a hand-off with its storage commit PAUSED inside the storage call, and enqueue a new
+			// request meanwhile: the queue holds its lock across the commit, so the enqueue (and the dequeue
+			// that follows it) can only happen afterwards; an implementation that dropped the lock around its
+			// storage I/O lets them through, and the stale commit then overwrites what they wrote.
+			if len(busy) == 0 {
+				continue
+			}
+			e := busy[0]
+			busy = busy[1:]
+			drainOps()
+			if !st.Dead() {
+				r.finalized[e.id] = true
+			}
+			paused := st.PauseNext(func(_ string, _, _, dels int) bool { return dels > 0 })
+			e.gate <- nil
+			select {
+			case <-paused:
+			case <-st.DeadCh():
+			case <-time.After(settleWait()):
+				r.unsettled++
+				settleExpired()
+			}
+			res := make(chan error, 1)
+			go func(id string) { res <- in.exp.ConsumeLogs(context.Background(), mk(id)) }(s.ID)
+			// scheduling only: give an implementation without the lock the chance to get its calls in
+			tm := time.NewTimer(3 * time.Millisecond)
+			select {
+			case <-st.OpCh():
+				time.Sleep(500 * time.Microsecond)
+			case <-tm.C:
+			case <-st.DeadCh():
+			}
+			tm.Stop()
+			st.Resume()
+			select {
+			case err := <-res:
+				if err == nil {
+					r.accepted[s.ID] = true
+					queued++
+				}
+				r.trace = append(r.trace, fmt.Sprintf("OKP(%s)+E(%s)=%v", e.id, s.ID, err == nil))
+			case <-time.After(60 * time.Second):
+				r.stuck = "enqueue issued during a paused storage commit did not return within 60 s"
+				r.image, r.ops, r.died = st.Image(), st.Ops(), st.Dead()
+				return r
+			}
+			waitDelete()
 		case "TRANS":
 			if len(busy) == 0 {
 				continue
@@ -437,8 +486,11 @@ func genScript(rng *rand.Rand, prefix string, maxLen int, first bool) []step {
 		case x < 42 || (first && i == 0):
 			sc = append(sc, step{Kind: "E", ID: fmt.Sprintf("%s%d", prefix, k)})
 			k++
-		case x < 62:
+		case x < 56:
 			sc = append(sc, step{Kind: "OK"})
+		case x < 62:
+			sc = append(sc, step{Kind: "OKP", ID: fmt.Sprintf("%s%d", prefix, k)})
+			k++
 		case x < 72:
 			sc = append(sc, step{Kind: "PERM"})
 		case x < 84:
@@ -454,8 +506,8 @@ func parseScript(prefix, s string) []step {
 	var sc []step
 	k := 0
 	for _, f := range strings.Fields(s) {
-		if f == "E" {
-			sc = append(sc, step{Kind: "E", ID: fmt.Sprintf("%s%d", prefix, k)})
+		if f == "E" || f == "OKP" {
+			sc = append(sc, step{Kind: f, ID: fmt.Sprintf("%s%d", prefix, k)})
 			k++
 		} else {
 			sc = append(sc, step{Kind: f})
@@ -486,6 +538,11 @@ var catalogue = []struct {
 	{1, "E E TRANS RESTART E OK OK OK"},
 	{3, "E E E E E TRANS TRANS TRANS RESTART OK OK OK OK OK"},
 	{2, "E E E TRANS RESTART TRANS RESTART OK OK OK"},
+	// paused commit: a completion whose storage commit is delayed inside the storage call while a new request
+	// is enqueued and dequeued by the other consumer
+	{2, "E OKP OK OK"},
+	{2, "E E OKP OKP OK OK"},
+	{3, "E E OKP OK OKP OK OK"},
 }
 
 // catalogueReps: every catalogue script is explored several times (the follow-up scripts differ, and the
@@ -600,7 +657,7 @@ func (x *explorer) explore(image map[string][]byte, carry map[string]bool, depth
 		}
 	}
 	for _, s := range sc {
-		if s.Kind == "E" {
+		if s.Kind == "E" || s.Kind == "OKP" {
 			x.register(s.ID)
 		}
 	}
